@@ -73,6 +73,65 @@ for L in ["Intercept", "Term", "Model"]:
 for R in ["Intercept", "Term", "GroupSpecificTerm", "Model"]:
     REQUIRED.append(("~", "Response", R, "all"))
 
+# Documented expansion (Wilkinson-Rogers / lme4 set semantics) of every supported operand shape, written in the
+# normal form of sa/algebra.py: set of (path condition, resulting term set).  SELF/OTHER are the operands, CT(X) the
+# common terms of a sum X, ALL(X) common and group-specific terms, CT*(SELF) the effect terms after the implicit
+# intercept was settled (R5.5), comps(t) the factors of term t, allcomps(X) all factors of X.  Each entry was
+# checked by hand against the property statement: + union, - difference, a:b pairwise interaction, a*b = a + b + a:b,
+# a/b = a + (all factors of a):b, (...)**n all interactions up to order n, (e|g) one group-specific term per term of
+# e (plus the implicit intercept) and per term of g.
+REF_EXPANSION = {
+    ('+', 'Intercept', 'Intercept'): [('-', 'I')],
+    ('+', 'Intercept', 'NegatedIntercept'): [('-', '{}')],
+    ('+', 'Intercept', 'Term'): [('-', '{I; OTHER}')],
+    ('+', 'Intercept', 'GroupSpecificTerm'): [('-', '{I; OTHER}')],
+    ('+', 'Intercept', 'Model'): [('-', '{I; e | e in ALL(OTHER)}')],
+    ('+', 'NegatedIntercept', 'Intercept'): [('-', '{}')],
+    ('+', 'NegatedIntercept', 'NegatedIntercept'): [('-', 'N')],
+    ('+', 'NegatedIntercept', 'Term'): [('-', '{N; OTHER}')],
+    ('+', 'NegatedIntercept', 'GroupSpecificTerm'): [('-', '{N; OTHER}')],
+    ('+', 'NegatedIntercept', 'Model'): [('-', '{N; e | e in ALL(OTHER)}')],
+    ('+', 'Term', 'Term'): [('SELF != OTHER', '{OTHER; SELF}'), ('SELF == OTHER', 'SELF')],
+    ('+', 'Term', 'Model'): [('-', '{SELF; e | e in ALL(OTHER)}')],
+    ('+', 'Model', 'Intercept'): [('-', '{I; e | e in ALL(SELF)}')],
+    ('+', 'Model', 'NegatedIntercept'): [('-', '{e | e in ALL(SELF)} minus {I}')],
+    ('+', 'Model', 'Term'): [('-', '{OTHER; e | e in ALL(SELF)}')],
+    ('+', 'Model', 'GroupSpecificTerm'): [('-', '{OTHER; e | e in ALL(SELF)}')],
+    ('+', 'Model', 'Model'): [('-', '{e | e in ALL(OTHER); e | e in ALL(SELF)}')],
+    ('-', 'Intercept', 'Intercept'): [('-', '{}')],
+    ('-', 'Intercept', 'Model'): [('I in OTHER', '{}'), ('I not in OTHER', 'I')],
+    ('-', 'Term', 'Term'): [('SELF != OTHER', 'SELF'), ('SELF == OTHER', '{}')],
+    ('-', 'Term', 'Model'): [('SELF in OTHER', '{}'), ('SELF not in OTHER', 'SELF')],
+    ('-', 'Model', 'Intercept'): [('OTHER in SELF', '{e | e in ALL(SELF)} minus {I}'), ('OTHER not in SELF', 'SELF')],
+    ('-', 'Model', 'Term'): [('OTHER in SELF', '{e | e in ALL(SELF)} minus {OTHER}'), ('OTHER not in SELF', 'SELF')],
+    ('-', 'Model', 'GroupSpecificTerm'): [('OTHER in SELF', '{e | e in ALL(SELF)} minus {OTHER}'), ('OTHER not in SELF', 'SELF')],
+    ('-', 'Model', 'Model'): [('-', '{e | e in ALL(SELF)} minus {e | e in ALL(OTHER)}')],
+    (':', 'Term', 'Term'): [('SELF != OTHER', 'TERM(comps(SELF) ++ comps(OTHER))'), ('SELF != OTHER & OTHER is a number', 'raise TypeError'), ('SELF == OTHER', 'SELF')],
+    (':', 'Term', 'Model'): [('-', '{TERM(comps(SELF) ++ comps(p1)) | p1 in CT(OTHER)}')],
+    (':', 'Model', 'Term'): [('-', '{TERM(comps(p0) ++ comps(OTHER)) | p0 in CT(SELF)}')],
+    (':', 'Model', 'Model'): [('-', '{TERM(comps(p0) ++ comps(p1)) | p0 in CT(SELF), p1 in CT(OTHER)}')],
+    ('*', 'Term', 'Term'): [('SELF != OTHER', '{OTHER; SELF; TERM(comps(SELF) ++ comps(OTHER))}'), ('SELF != OTHER & OTHER is a number', 'raise TypeError'), ('SELF == OTHER', 'SELF')],
+    ('*', 'Term', 'Model'): [('-', '{SELF; TERM(comps(SELF) ++ comps(p1)) | p1 in CT(OTHER); e | e in CT(OTHER)}')],
+    ('*', 'Model', 'Term'): [('-', '{OTHER; TERM(comps(p0) ++ comps(OTHER)) | p0 in CT(SELF); e | e in CT(SELF)}'), ('OTHER is a number', 'raise TypeError')],
+    ('*', 'Model', 'Model'): [('SELF != OTHER', '{TERM(comps(p0) ++ comps(p1)) | p0 in CT(SELF), p1 in CT(OTHER); e | e in CT(OTHER); e | e in CT(SELF)}'), ('SELF != OTHER & OTHER has one term', '{TERM(comps(p0) ++ comps(p1)) | p0 in CT(SELF), p1 in CT(OTHER); e | e in CT(OTHER); e | e in CT(SELF)}'), ('SELF == OTHER', 'SELF')],
+    ('/', 'Term', 'Term'): [('SELF != OTHER', '{SELF; TERM(comps(SELF) ++ comps(OTHER))}'), ('SELF != OTHER & OTHER is a number', 'raise TypeError'), ('SELF == OTHER', 'SELF')],
+    ('/', 'Term', 'Model'): [('-', '{SELF; TERM(comps(SELF) ++ comps(p1)) | p1 in CT(OTHER)}')],
+    ('/', 'Model', 'Term'): [('-', '{TERM(allcomps(SELF) ++ comps(OTHER)); e | e in ALL(SELF)}')],
+    ('/', 'Model', 'Model'): [('-', '{TERM(allcomps(SELF) ++ c) | c in CC(OTHER); e | e in ALL(SELF)}')],
+    ('**', 'Term', 'Term'): [('n is a positive integer', 'SELF'), ('n is not a positive integer', 'NotImplemented')],
+    ('**', 'Model', 'Term'): [('OTHER is a single component & n is a positive integer', '{TERM(comps(each of combo)) | combo in combinations(CT(SELF), k), k in range(2, n + 1); e | e in ALL(SELF)}')],
+    ('|', 'Intercept', 'Term'): [('-', 'GST(I, OTHER)')],
+    ('|', 'Intercept', 'Model'): [('-', '{GST(I, p1) | p1 in CT(OTHER)}')],
+    ('|', 'Term', 'Term'): [('-', '{GST(I, OTHER); GST(SELF, OTHER)}')],
+    ('|', 'Term', 'Model'): [('-', '{GST(I, p1) | p1 in CT(OTHER); GST(SELF, p1) | p1 in CT(OTHER)}')],
+    ('|', 'Model', 'Term'): [('-', '{GST(p0, OTHER) | p0 in CT*(SELF)}'), ('SELF has one term', '(first(CT(SELF))) | (OTHER)')],
+    ('|', 'Model', 'Model'): [('-', '{GST(p0, p1) | p0 in CT*(SELF), p1 in CT(OTHER)}'), ('SELF has one term', '(first(CT(SELF))) | (OTHER)')],
+    ('~', 'Response', 'Intercept'): [('-', '{I} with response')],
+    ('~', 'Response', 'Term'): [('-', '{OTHER} with response')],
+    ('~', 'Response', 'GroupSpecificTerm'): [('-', '{OTHER} with response')],
+    ('~', 'Response', 'Model'): [('-', '{e | e in ALL(OTHER)} with response')],
+}
+
 RESOLVER_OPS = {
     "+": ast.Add,
     "-": ast.Sub,
@@ -86,10 +145,13 @@ RESOLVER_OPS = {
 
 def run(prog, rep, tier):
     r2_1(prog, rep)
+    r2_1e(prog, rep)
     r2_2(prog, rep, tier)
     r2_3(prog, rep)
     r2_4(prog, rep)
     r2_5(prog, rep)
+    r2_6(prog, rep)
+    rep.floor("R2.6", len(REF_EXPANSION))
     rep.floor("R2.1", 40)
     rep.floor("R2.2", len(REQUIRED))
     rep.floor("R2.3", 12)
@@ -219,6 +281,12 @@ def r2_1(prog, rep):
                 f"{cls.name}.__eq__ returns False for a foreign class before touching its attributes "
                 f"({len(reads)} read(s) of `{other}.*` guarded)")
         obl(rep, e, e.node, "R2.1", not cfg_of(e).falls_off(), f"{cls.name}.__eq__ returns on every path", nontrivial=False)
+
+
+def r2_1e(prog, rep):
+    from . import shared
+
+    shared.eq_compares_fields(prog, rep, "R2.1", IDENTITY)
 
 
 def _is_isinstance_of(node, name):
@@ -563,3 +631,58 @@ def _final_else(f):
     while len(node.orelse) == 1 and isinstance(node.orelse[0], ast.If):
         node = node.orelse[0]
     return node.orelse
+
+
+# ------------------------------------------------------------------------------------------
+def r2_6(prog, rep):
+    """expansion semantics: abstract interpretation of every overload in the term-set domain vs. the documented algebra"""
+    from ..algebra import Summariser
+
+    S = Summariser(prog)
+    mod = prog.mod("terms.terms")
+    for (sym, L, R), want in sorted(REF_EXPANSION.items()):
+        method = OPS.get(sym, "__add__")
+        try:
+            outs = S.summarise(L, method, R)
+            if outs is not None:
+                [S.normal(v) for c, v in outs]
+        except AnalysisError as e:
+            rep.defer(f"R2.6 {L} {sym} {R}: {e}")
+            continue
+        m = mod.classes[L].methods.get(method)
+        where = f"{mod.relpath}:{m.node.lineno}" if m else mod.classes[L].where
+        fnq = f"formulae.terms.terms.{L}.{method}"
+        construct = f"{L} {sym} {R} expands as documented"
+        if outs is None:
+            rep.bad("R2.6", where, fnq, construct, f"{L} has no {method}")
+            continue
+        got = sorted({(" & ".join(c) or "-", S.normal(v)) for c, v in outs})
+        want = sorted(want)
+        if got == want:
+            rep.ok("R2.6", where, fnq, construct, "; ".join(f"[{c}] {v}" for c, v in got))
+        else:
+            missing = [x for x in want if x not in got]
+            extra = [x for x in got if x not in want]
+            rep.bad("R2.6", where, fnq, construct,
+                    "the overload builds a different term set than the documented algebra - expected "
+                    + "; ".join(f"[{c}] {v}" for c, v in missing) + " - found " + "; ".join(f"[{c}] {v}" for c, v in extra))
+    # definitions the summaries rely on: allcomps(X) and ALL(X)
+    cc = prog.fn("terms.terms.Model.common_components")
+    rets = [n for n in walk_local(cc.node) if isinstance(n, ast.Return)]
+    ok = len(rets) == 1 and isinstance(rets[0].value, ast.ListComp)
+    if ok:
+        lc = rets[0].value
+        g = lc.generators
+        ok = (len(g) == 2 and unparse(g[0].iter) == "self.common_terms" and [unparse(i) for i in g[0].ifs] in ([f"isinstance({unparse(g[0].target)}, Term)"], [])
+              and unparse(g[1].iter) == f"{unparse(g[0].target)}.components" and not g[1].ifs and unparse(lc.elt) == unparse(g[1].target))
+    obl(rep, cc, cc.node, "R2.6", ok, "allcomps(X) = the components of every common Term of X, in order, unfiltered", "",
+        "Model.common_components does not return all factors of all common terms: a/b no longer is a + (all factors of a):b")
+    tm = prog.fn("terms.terms.Model.terms")
+    rets = [n for n in walk_local(tm.node) if isinstance(n, ast.Return)]
+    obl(rep, tm, tm.node, "R2.6", len(rets) == 1 and unparse(rets[0].value) == "self.common_terms + self.group_terms",
+        "ALL(X) = common terms followed by group-specific terms")
+    mi = prog.fn("terms.terms.Model.__init__")
+    d = {unparse(s_.targets[0]): unparse(s_.value) for s_ in ast.walk(mi.node) if isinstance(s_, ast.Assign)}
+    ok = d.get("self.common_terms") == "[term for term in terms if not isinstance(term, GroupSpecificTerm)]" and \
+        d.get("self.group_terms") == "[term for term in terms if isinstance(term, GroupSpecificTerm)]"
+    obl(rep, mi, mi.node, "R2.6", ok, "Model(*terms) keeps every given term, split into common and group-specific lists")
